@@ -190,6 +190,22 @@ CHECKS["C03"] = dict(
           "known finding F24; 'met exactly' additionally needs convergence (C05) and, for lifts/ratios, the momentum equation of C02."),
     ref="DESIGN.md section 4 C03")
 
+CHECKS["C04"] = dict(
+    engine="E3",
+    technique="contract-based deductive verification: VCs from the AST of _connectivity / perform_connectivity_search / check_connectivity / identify_active_nodes_branches / reduce_pit / extract_results_active_pit for arbitrary pit lengths (compress/rank axioms, recorded COO edge families, breadth-first search by reachability contract), discharged by z3",
+    text=("Proved for every number of nodes and branches and every flag pattern: the adjacency handed to the graph search holds exactly the "
+          "in-service, connecting branches in both directions plus one edge from the virtual slack node to every in-service fixing node; "
+          "with the search's reachability contract a node is active iff reachable and in service, a branch iff in service with both ends "
+          "active; no active slack raises instead of returning; reduce_pit's active tables are the order-preserving compression of the pit by "
+          "these masks with FROM/TO renumbered to the rank of the original node and the full pit untouched; extract_results_active_pit "
+          "copies every supplied row back from its rank, writes NaN (ambient / surrounding temperature in heat mode) to every "
+          "unsupplied row and leaves FROM/TO and the other stage's unknown alone."),
+    note=(TB + "scipy.sparse.csgraph.breadth_first_order by assumed contract (returns exactly the nodes reachable in the given adjacency; A4); "
+          "compress / cumsum by the rank axioms (A4); 'results identical to the network with the unsupplied part deleted' is the composition "
+          "reduce -> solve on the active pit (C01/C02 speak about whatever pit they get) -> copy back, written out in DESIGN.md, not "
+          "mechanised; the per-table index lookups of reduce_lookups (label -> active position) belong to C06."),
+    ref="DESIGN.md section 4 C04")
+
 NOT_APPLICABLE = {
     "C08": "uniqueness of the solution of the nonlinear system within tolerances and convergence of damped Newton in floating point: a whole-history/analytic property, no pre/post contract within reach expresses it (DESIGN.md section 5)",
     "C15": "the save/load round trip is the behaviour of pandapower/pandas/json/pickle/scipy object state; a contract strong enough would have to assume the property (DESIGN.md section 5)",
